@@ -236,3 +236,67 @@ package connlist
 //@     assert [C16,C10,C08] visited: ingressConns != nil ==> (forall key string :: {key in ingressConns} key in ingressConns ==> seen(key))
 //@   loop 1:
 //@     invariant nonempty: forall k int :: {res[k]} (0 <= k && k < len(res)) ==> (dyntype(res[k], *connection) && unwrap(res[k], *connection) != nil && allocated(unwrap(res[k], *connection)) && connNonEmpty(unwrap(res[k], *connection)))
+
+// ---------------------------------------------------------------------------------------------
+// Refinement of an IP end to the common partition (C04): every piece carries the connection value of the original entry -
+// same all-connections flag, same protocol/port map, same other end - and there is one piece per replacing peer
+// ---------------------------------------------------------------------------------------------
+//@ func refineP2PConnByDisjointPeers
+//@   requires p2pOK(conns) && allocated(unwrap(conns, *connection)) && clPeerOK(p) && m != nil
+//@   requires forall s string :: {s in m} s in m ==> m[s] != nil
+//@   ensures [C04] same: res1 == nil ==> (forall k int :: {res0[k]} (0 <= k && k < len(res0) && res0[k] != nil) ==> (dyntype(res0[k], *connection) && unwrap(res0[k], *connection) != nil
+//@         && unwrap(res0[k], *connection).allConnections == unwrap(conns, *connection).allConnections
+//@         && unwrap(res0[k], *connection).protocolsAndPorts == unwrap(conns, *connection).protocolsAndPorts
+//@         && (isSrc ==> unwrap(res0[k], *connection).dst == p2pDst(conns)) && (!isSrc ==> unwrap(res0[k], *connection).src == p2pSrc(conns))))
+//@   ensures [C04] pieces: res1 == nil ==> (forall key string :: {key in m[clStr(p)]} key in m[clStr(p)] ==>
+//@         (exists k int :: {res0[k]} 0 <= k && k < len(res0) && (if isSrc then unwrap(res0[k], *connection).src else unwrap(res0[k], *connection).dst) == m[clStr(p)][key]))
+//@   ensures [C04] kept: unwrap(conns, *connection).allConnections == old(unwrap(conns, *connection).allConnections) && unwrap(conns, *connection).protocolsAndPorts == old(unwrap(conns, *connection).protocolsAndPorts)
+//@   loop 1:
+//@     invariant idx: i == seencount() && len(res) == len(replacingPeers) && i <= len(res)
+//@     invariant rest: forall k int :: {res[k]} (i <= k && k < len(res)) ==> res[k] == nil
+//@     invariant same: forall k int :: {res[k]} (0 <= k && k < i) ==> (dyntype(res[k], *connection) && unwrap(res[k], *connection) != nil && allocated(unwrap(res[k], *connection))
+//@         && unwrap(res[k], *connection).allConnections == unwrap(conns, *connection).allConnections
+//@         && unwrap(res[k], *connection).protocolsAndPorts == unwrap(conns, *connection).protocolsAndPorts
+//@         && (isSrc ==> unwrap(res[k], *connection).dst == p2pDst(conns)) && (!isSrc ==> unwrap(res[k], *connection).src == p2pSrc(conns)))
+//@     invariant pieces: forall key string :: {seen(key)} {key in replacingPeers} seen(key) ==>
+//@         (exists k int :: {res[k]} 0 <= k && k < i && (if isSrc then unwrap(res[k], *connection).src else unwrap(res[k], *connection).dst) == replacingPeers[key])
+//@     invariant conns: allocated(unwrap(conns, *connection)) && unwrap(conns, *connection).allConnections == old(unwrap(conns, *connection).allConnections) && unwrap(conns, *connection).protocolsAndPorts == old(unwrap(conns, *connection).protocolsAndPorts) && unwrap(conns, *connection).src == old(unwrap(conns, *connection).src) && unwrap(conns, *connection).dst == old(unwrap(conns, *connection).dst)
+
+// ---------------------------------------------------------------------------------------------
+// Exposure entries in txt/md/csv/json (C09): a namespace selector is shortened to the bare namespace name only when it is
+// exactly the name label (one matchLabels entry, no matchExpressions) - otherwise the whole selector is printed
+// ---------------------------------------------------------------------------------------------
+//@ func getRepresentativeNamespaceString
+//@   before return 1:
+//@     assert [C09] exact: len(nsLabels.MatchLabels) == 1 && len(nsLabels.MatchExpressions) == 0 && "kubernetes.io/metadata.name" in nsLabels.MatchLabels && nsName == nsLabels.MatchLabels["kubernetes.io/metadata.name"]
+//@   ensures [C09] bare: (len(nsLabels.MatchLabels) == 1 && len(nsLabels.MatchExpressions) == 0 && "kubernetes.io/metadata.name" in nsLabels.MatchLabels) ==> res == nsLabels.MatchLabels["kubernetes.io/metadata.name"]
+
+// ---------------------------------------------------------------------------------------------
+// The focus filter never narrows the computation (C16): the list of focus peers holds EVERY peer that matches W (no early
+// exit), the pair loop is entered only when W is empty or exists, and it pairs every peer with every peer of the same list
+// ---------------------------------------------------------------------------------------------
+//@ func (*ConnlistAnalyzer).getConnectionsList
+//@   nosafety
+//@   requires ca != nil && pe != nil
+//@   modifies *
+//@   before call 9:
+//@     assert [C16] allfocus: forall j int :: {peerList[j]} (0 <= j && j < len(peerList) && focusMatch(ca, peerList[j])) ==> (exists k int :: {ca.peersList[k]} 0 <= k && k < len(ca.peersList) && ca.peersList[k] == peerList[j])
+//@     assert [C16] onlyfocus: forall k int :: {ca.peersList[k]} (0 <= k && k < len(ca.peersList)) ==> (exists j int :: {peerList[j]} 0 <= j && j < len(peerList) && ca.peersList[k] == peerList[j] && focusMatch(ca, peerList[j]))
+//@   before call 13:
+//@     assert [C16] exists: ca.focusWorkload == "" || existFocusWorkload
+//@     assert [C16,C06] samelist: !ca.exposureAnalysis ==> (len(realAndRepresentativePeers) == len(peers) && (forall j int :: {realAndRepresentativePeers[j]} (0 <= j && j < len(peers)) ==> realAndRepresentativePeers[j] == peers[j]))
+//@   loop 1:
+//@     invariant ca: ca.focusWorkload == pre(ca.focusWorkload) && ca.exposureAnalysis == pre(ca.exposureAnalysis)
+//@     invariant allfocus: forall j int :: {peerList[j]} (0 <= j && j <= rangeindex && focusMatch(ca, peerList[j])) ==> (exists k int :: {ca.peersList[k]} 0 <= k && k < len(ca.peersList) && ca.peersList[k] == peerList[j])
+//@     invariant onlyfocus: forall k int :: {ca.peersList[k]} (0 <= k && k < len(ca.peersList)) ==> (exists j int :: {peerList[j]} 0 <= j && j <= rangeindex && ca.peersList[k] == peerList[j] && focusMatch(ca, peerList[j]))
+
+//@ func (*ConnlistAnalyzer).getConnectionsBetweenPeers
+//@   nosafety
+//@   requires ca != nil && pe != nil
+//@   modifies *
+//@   before call 1:
+//@     assert [C16,C05,C01] pair: 0 <= rangeindex1 && rangeindex1 < len(peers) && 0 <= rangeindex2 && rangeindex2 < len(peers) && srcPeer == peers[rangeindex1] && dstPeer == peers[rangeindex2]
+//@   before return 4:
+//@     assert [C16,C05,C01] allsrc: rangeindex1 + 1 >= len(peers)
+//@   before call 5:
+//@     assert [C05] nonempty: allowedConnections.AllowAll || (exists q v1.Protocol :: {q in allowedConnections.AllowedProtocols} q in allowedConnections.AllowedProtocols)
